@@ -31,7 +31,7 @@ ASSUMPTIONS = [
     "involved (corner, extent, result)",
     "for an invalid cell number any of -1 / NaN / an exception is accepted",
 ]
-OBLIGATIONS = {"outside:left": 100, "outside:right": 100, "outside:bottom": 100,
+OBLIGATIONS = {"derived:clip": 20, "derived:two-rows-or-more": 20, "invalid-cell:scalar-forms": 100, "outside:first-double-beyond-the-origin-sides": 100, "outside:left": 100, "outside:right": 100, "outside:bottom": 100,
                "outside:top": 100, "outside:diag": 100, "inside": 1000,
                "grid:1row": 3, "grid:1col": 3, "invalid-cell": 50,
                "neighbours": 200, "rowcol": 200, "xyvalues": 20,
@@ -303,6 +303,25 @@ def run_geom_case(ctx, case):
                   case, lambda: {"x": x, "y": y, "got": int(gc),
                                  "distance_from_extent_in_cells": dist})
         ctx.nontrivial(nrows, ncols, xll, yll, csz, float(x), float(y))
+    # ---- the first double left of / below the extent: outside, on this grid and on the
+    # same grid placed at the origin (where that double is the smallest subnormal) with
+    # cell sizes below and above 1
+    Grid_ = type(gr)
+    for gx, ox, oy, cz in [(gr, xll, yll, csz)] + [
+            (Grid_("o", ncols, nrows, cellsize=cz_, xllcorner=0.0, yllcorner=0.0), 0.0, 0.0, cz_)
+            for cz_ in (csz, 2.0, 0.5, 250.0)]:
+        pe = np.array([[np.nextafter(ox, -np.inf), oy + 0.5 * cz],
+                       [ox + 0.5 * cz, np.nextafter(oy, -np.inf)],
+                       [np.nextafter(ox, -np.inf), np.nextafter(oy, -np.inf)],
+                       [ox + 0.5 * cz, oy + 0.5 * cz]])
+        ctx.api("coord2cell")
+        ge = np.asarray(gx.coord2cell(pe))
+        ctx.tag("outside:first-double-beyond-the-origin-sides")
+        ctx.check("coord2cell.outside-by-one-ulp", bool(np.all(ge[:3] == -1)) and
+                  int(ge[3]) == (nrows - 1) * ncols,
+                  "coord2cell|first-double-left-of-or-below-the-extent-mapped-to-a-cell",
+                  case, lambda: {"origin": [ox, oy], "cellsize": cz, "points": pe,
+                                 "got": ge, "expected": [-1, -1, -1, (nrows - 1) * ncols]})
     # ---- rowcol and neighbours
     ctx.api("cell2rowcol")
     rc = gr.cell2rowcol(cells)
@@ -502,6 +521,119 @@ def run_huge_grid(ctx):
               lambda: {"cell,coord,rowcol,back": bad})
 
 
+def run_derived_case(ctx, case):
+    """A grid obtained from another one (cut out with Grid.clip, cloned, rebuilt from its
+    dictionary) answers every geometric question exactly like a grid built by the
+    constructor with the geometry it reports; and invalid cell numbers are flagged
+    whatever form the number is given in (bare Python / numpy integers too)."""
+    def scalar_forms(v):
+        f = [int(v), np.int64(v), np.array(v, dtype=np.int64)]
+        if -2 ** 31 <= v < 2 ** 31:
+            f.append(np.int32(v))
+        if 0 <= v < 2 ** 16:
+            f.append(np.uint16(v))
+        return f
+    Grid = G()
+    rng = np.random.default_rng(int(case["seed"]))
+    nrows, ncols = int(case["nrows"]), int(case["ncols"])
+    xll, yll, csz = float(case["xll"]), float(case["yll"]), float(case["csz"])
+    pl, pb, pr, pt = [int(v) for v in case["pads"]]
+    big = Grid("parent", ncols + pl + pr, nrows + pb + pt, cellsize=csz,
+               xllcorner=xll - pl * csz, yllcorner=yll - pb * csz,
+               dtype=[np.float64, np.int32, np.uint8][nrows % 3])
+    ctx.evaluated()
+    derived = {}
+    try:
+        derived["clip"] = big.clip(xll + 0.5 * csz, yll + 0.5 * csz,
+                                   xll + (ncols - 0.5) * csz, yll + (nrows - 0.5) * csz)
+        derived["clip-of-clip"] = derived["clip"].clip(
+            derived["clip"].xllcorner + 0.5 * csz, derived["clip"].yllcorner + 0.5 * csz,
+            derived["clip"].xllcorner + (derived["clip"].ncols - 0.5) * csz,
+            derived["clip"].yllcorner + (derived["clip"].nrows - 0.5) * csz)
+        derived["clone-of-clip"] = derived["clip"].clone()
+        derived["dict-of-clip"] = Grid.from_dict(derived["clip"].to_dict())
+    except Exception as e:
+        ctx.extra["derived-grid-refused:" + type(e).__name__] += 1
+    for how, gd in derived.items():
+        ctx.tag("derived:" + how)
+        if gd.nrows >= 2:
+            ctx.tag("derived:two-rows-or-more")
+        twin = Grid("twin", gd.ncols, gd.nrows, cellsize=gd.cellsize,
+                    xllcorner=gd.xllcorner, yllcorner=gd.yllcorner)
+        nc_ = gd.nrows * gd.ncols
+        cells = np.arange(nc_) if nc_ <= 400 else np.unique(np.concatenate(
+            [np.arange(50), nc_ - 1 - np.arange(50), rng.integers(0, nc_, 200)]))
+        x0, x1, y0, y1 = gd.xllcorner, gd.xllcorner + gd.ncols * csz, gd.yllcorner, \
+            gd.yllcorner + gd.nrows * csz
+        pts = np.column_stack([rng.uniform(x0 - 2 * csz, x1 + 2 * csz, 300),
+                               rng.uniform(y0 - 2 * csz, y1 + 2 * csz, 300)])
+        probes = {"cell2coord": lambda q: np.asarray(q.cell2coord(cells)),
+                  "coord2cell": lambda q: np.asarray(q.coord2cell(pts)),
+                  "coord2cell-of-own-centres": lambda q: np.asarray(
+                      q.coord2cell(np.asarray(q.cell2coord(cells)))),
+                  "cell2rowcol": lambda q: np.asarray(q.cell2rowcol(cells)),
+                  "xvalues": lambda q: np.asarray(q.xvalues, float),
+                  "yvalues": lambda q: np.asarray(q.yvalues, float),
+                  "neighbours": lambda q: np.concatenate(
+                      [np.asarray(q.neighbours(int(c_))).ravel() for c_ in cells[:40]])}
+        for nm, fn in probes.items():
+            ctx.api(nm.split("-")[0])
+            try:
+                a, b = fn(gd), fn(twin)
+                ok = a.shape == b.shape and bool(np.array_equal(a, b, equal_nan=a.dtype.kind == "f"))
+            except Exception as e:
+                a = b = None
+                ok = False
+            ctx.check("derived." + nm, ok, f"{nm}|derived-grid-differs-from-constructed-twin",
+                      dict(case, how=how),
+                      lambda: {"how": how, "derived": None if a is None else a.ravel()[:6],
+                               "twin": None if b is None else b.ravel()[:6]})
+        # centres lie inside the extent the grid itself reports
+        cc = np.asarray(gd.cell2coord(cells))
+        ctx.check("derived.centres-inside-own-extent",
+                  bool(np.all((cc[:, 0] > x0) & (cc[:, 0] < x1) & (cc[:, 1] > y0) &
+                              (cc[:, 1] < y1))),
+                  "cell2coord|derived-grid-centres-outside-its-own-extent",
+                  dict(case, how=how), lambda: {"how": how, "centres": cc[:3]})
+    # ---- invalid cell numbers, one at a time, in every scalar form
+    gq = Grid("q", ncols, nrows, cellsize=csz, xllcorner=xll, yllcorner=yll)
+    ncell = nrows * ncols
+    for bad in (ncell, ncell + 1, -1, -ncell, 2 * ncell, 2 ** 31, 2 ** 40):
+        for form in scalar_forms(bad):
+            ctx.tag("invalid-cell:scalar-forms")
+            ctx.api("cell2rowcol")
+            try:
+                rc = np.asarray(gq.cell2rowcol(form)).ravel()
+                okb = bool(np.all(rc == -1))
+            except (ValueError, OverflowError, TypeError, IndexError):
+                rc, okb = None, True
+            ctx.check("cell2rowcol.invalid-scalar", okb,
+                      "cell2rowcol|invalid-cell-number-mapped-to-a-position",
+                      dict(case, cell=bad),
+                      lambda: {"cell": bad, "form": type(form).__name__, "got": rc,
+                               "ncells": ncell})
+            ctx.api("cell2coord")
+            try:
+                xy = np.asarray(gq.cell2coord(form), dtype=float).ravel()
+                okc = bool(np.all(np.isnan(xy)))
+            except (ValueError, OverflowError, TypeError, IndexError):
+                xy, okc = None, True
+            ctx.check("cell2coord.invalid-scalar", okc,
+                      "cell2coord|invalid-cell-number-mapped-to-a-point",
+                      dict(case, cell=bad),
+                      lambda: {"cell": bad, "form": type(form).__name__, "got": xy})
+    for good in (0, ncell - 1, ncell // 2):
+        for form in scalar_forms(good):
+            ctx.api("cell2rowcol")
+            try:
+                rc = np.asarray(gq.cell2rowcol(form)).ravel().tolist()
+            except Exception as e:
+                rc = repr(e)
+            ctx.check("cell2rowcol.valid-scalar", rc == [good // ncols, good % ncols],
+                      "cell2rowcol|scalar-cell-number", dict(case, cell=good),
+                      lambda: {"cell": good, "form": type(form).__name__, "got": rc})
+
+
 def run(ctx):
     if ctx.shard == 0:
         run_huge_grid(ctx)
@@ -517,6 +649,13 @@ def run(ctx):
         run_geom_case(ctx, case)
         if it % 15 == 0:
             ctx.sample(case)
+        run_derived_case(ctx, {"kind": "derived", "nrows": int(rng.integers(1, 9)),
+                               "ncols": int(rng.integers(1, 9)),
+                               "xll": float(rng.integers(-40, 40)) * 0.25,
+                               "yll": float(rng.integers(-40, 40)) * 0.5,
+                               "csz": [0.25, 0.5, 1.0, 2.0, 0.125][it % 5],
+                               "pads": [int(v) for v in rng.integers(0, 4, size=4)],
+                               "seed": int(rng.integers(0, 2 ** 31))})
         if it % 2 == 0:
             run_integer_case(ctx, {"kind": "intgeom", "nrows": int(rng.integers(1, 12)),
                                    "ncols": int(rng.integers(1, 12)),
@@ -531,4 +670,6 @@ def replay(ctx, case):
         return run_huge_grid(ctx)
     if case.get("kind") == "intgeom":
         return run_integer_case(ctx, case)
+    if case.get("kind") == "derived":
+        return run_derived_case(ctx, case)
     run_geom_case(ctx, case)
